@@ -34,6 +34,9 @@ func newInfluxDBOutNode(et *ExecutingTask, n *pipeline.InfluxDBOutNode, d NodeDi
 	if et.tm.InfluxDBService == nil {
 		return nil, errors.New("no InfluxDB cluster configured cannot use the InfluxDBOutNode")
 	}
+	if n.FlushInterval <= 0 {
+		return nil, errors.New("flushInterval must be greater than zero")
+	}
 	cli, err := et.tm.InfluxDBService.NewNamedClient(n.Cluster)
 	if err != nil {
 		return nil, errors.Wrap(err, "failed to get InfluxDB client")
